@@ -1,9 +1,9 @@
 """C12 - import reproduces the source table faithfully (DataFrame/CSV path)"""
 LEVEL = "other"
 TRUSTED = ["reference semantics written from the property statement (native/pure_bounded.py)", "flatten_name_map: dict.items() modelled as an ordered enumeration (key(i), value(i)); values assumed to be None, str or list of str (the annotated type); importable_node_props abstracted to its set (exact for `in` and emptiness); mapping keys pairwise distinct (dict); f-strings are opaque; induction principle for the monotonicity lemma of the ghost offsets applied by hand (its step is a discharged obligation)"]
-EXPLANATION = ("PROVED (SMT, unbounded, symbolic ordered mapping with None / string / list-of-strings values): flatten_name_map returns, in mapping order, exactly one (standard key, source column) pair per string item and one unrenamed (column, column) pair per listed column, in the mapped order (P1 length = ghost offset of the end, P2, P3; two nested loop invariants; monotonicity of the offsets by induction, step discharged). validate_node_name_map (the mapping check every importer runs before loading): whenever it accepts, every required key is mapped to a non-None value, position is mapped or a segmentation is given, and - for a non-empty list of source columns - every mapped column, including every column of a list mapping, exists in the source with exactly that name; it raises nothing but ValueError (two loop invariants with existential ghost; the nested spatial-dims check under an assumed read-only may-raise-ValueError contract; both with and without feature metadata). BOUNDED STAND-IN for the rest, DataFrame/CSV path only (GEFF store path not covered): real tracks_from_df on every forest with <= 3 nodes, integer / string / zero-based ids, 2D/3D positions, extra custom column, renamed time column, parent encoded as NaN / -1, and the malformed variants duplicate id / unknown parent / self link / missing required column; nodes, edges, time, position and custom values are compared with the table; malformed tables must raise ValueError.")
+EXPLANATION = ("PROVED (SMT, unbounded, symbolic ordered mapping with None / string / list-of-strings values): flatten_name_map returns, in mapping order, exactly one (standard key, source column) pair per string item and one unrenamed (column, column) pair per listed column, in the mapped order (P1 length = ghost offset of the end, P2, P3; two nested loop invariants; monotonicity of the offsets by induction, step discharged). validate_node_name_map (the mapping check every importer runs before loading): whenever it accepts, every required key is mapped to a non-None value, position is mapped or a segmentation is given, and - for a non-empty list of source columns - every mapped column, including every column of a list mapping, exists in the source with exactly that name; it raises nothing but ValueError (two loop invariants with existential ghost; the nested spatial-dims check under an assumed read-only may-raise-ValueError contract; both with and without feature metadata); validate_edge_name_map: the same column clause for the edge mapping. BOUNDED STAND-IN for the rest, DataFrame/CSV path only (GEFF store path not covered): real tracks_from_df on every forest with <= 3 nodes, integer / string / zero-based ids, 2D/3D positions, extra custom column, renamed time column, parent encoded as NaN / -1, and the malformed variants duplicate id / unknown parent / self link / missing required column; nodes, edges, time, position and custom values are compared with the table; malformed tables must raise ValueError.")
 ASSUMPTIONS = ["everything except flatten_name_map is a bounded stand-in: exhaustive/sampled over the stated finite space, not a proof"]
-NOT_UNDER_CONTRACT = ["CSVTracksBuilder.load_source", "_ensure_integer_ids", "_combine_multi_value_props", "validate_spatial_dims_in_name_map (assumed: read-only, returns or raises ValueError)", "validate_edge_name_map", "validate_in_memory_geff", "GEFF path (read_to_memory)"]
+NOT_UNDER_CONTRACT = ["CSVTracksBuilder.load_source", "_ensure_integer_ids", "_combine_multi_value_props", "validate_spatial_dims_in_name_map (assumed: read-only, returns or raises ValueError)", "validate_in_memory_geff", "GEFF path (read_to_memory)"]
 
 
 def units(tier):
